@@ -13,6 +13,7 @@ use util::{Args, Out};
 fn main() {
     let argv: Vec<String> = std::env::args().collect();
     let args = Args::parse(&argv);
+    util::set_quarantine(&args.quarantine);
     util::install_panic_hook();
     if args.prop != "probe" {
         util::silence_stderr();
